@@ -16,9 +16,6 @@ one() {
   cp "$out/out.txt" /tmp/seedmatrix-$s.txt
   rm -rf "$w" "$out"
 }
-export TIER
-for s in $SEEDS; do
-  one "$s" &
-  while [ "$(jobs -r | wc -l)" -ge 4 ]; do sleep 2; done
-done
-wait
+if [ "${SEED_MATRIX_ONE:-}" = 1 ]; then one "$SEEDS"; exit 0; fi
+# four seeds at a time (xargs; POSIX sh has no `jobs -r`)
+echo $SEEDS | tr ' ' '\n' | SEED_MATRIX_ONE=1 xargs -P 4 -I{} "$0" "$TIER" {}
